@@ -235,8 +235,24 @@ def bounded_textual(tier, seed):
     return {"function": "unstructure_datetime(structure_datetime(s)) == s", "backend": "bounded", "bound": "3 strings", "evaluations": 3, "distinct_nontrivial": 3, "failures": failures}
 
 
-BOUNDED = [bounded_generated_models, bounded_textual]
-WITNESS = {"F-C03-datetime-Z": lambda k: any(f["id"] == "bounded:datetime-text:Z" for f in bounded_textual("quick", 0)["failures"])}
+def bounded_random_documents(tier, seed):
+    """every object schema of every random corpus document: conforming payloads (typical / falsy-and-empty / required-only) through the generated model and back"""
+    from props import randrt
+    return randrt.bounded("models", tier, seed)
+
+
+def _witness_default_materialised(k):
+    """an absent optional property that declares a default comes back as that default"""
+    from props import randrt
+    doc = {"openapi": "3.0.3", "info": {"title": "W", "version": "1"}, "paths": {}, "components": {"schemas": {
+        "Thing": {"type": "object", "properties": {"id": {"type": "string"}, "score": {"type": "number", "default": 1.5}}, "required": ["id"]}}}}
+    r = randrt.run(doc, parts=("models",))
+    return any(p["kind"] == "default-materialised" for p in r.get("problems", []))
+
+
+BOUNDED = [bounded_generated_models, bounded_textual, bounded_random_documents]
+WITNESS = {"F-C03-datetime-Z": lambda k: any(f["id"] == "bounded:datetime-text:Z" for f in bounded_textual("quick", 0)["failures"]),
+           "F-C03-default-materialised": _witness_default_materialised}
 
 MANIFEST = {
     "category": "other",
